@@ -2354,7 +2354,21 @@ def it_sum_multi(i, fr, st, pc, a, t, fn, r):
             x = load_items(i, s1, x)
             if not isinstance(x, W):
                 raise Undecided("sum of non-integers")
-            acc = x if acc is None else w_add(acc, x)[0]
+            if acc is None:
+                acc = x
+                continue
+            if acc.val is not None and x.val is not None and not acc.signed:
+                # Sum for integers inherits the crate's overflow checks: panic in checked builds, wrap otherwise
+                tot = acc.val + x.val
+                if tot >> acc.width and getattr(i.facts, "cfg", "dbg") != "rel":
+                    outs += i.panic(s1, p1, "attempt to add with overflow", fr, t)
+                    acc = "panicked"
+                    break
+                acc = W(acc.width, val=tot & ((1 << acc.width) - 1), signed=acc.signed)
+            else:
+                acc = w_add(acc, x)[0]
+        if acc == "panicked":
+            continue
         if acc is None:
             out_ty = ((r or fn).get("args") or [None])[-1]
             w = out_ty.get("w", 64) if isinstance(out_ty, dict) else 64
@@ -2850,6 +2864,155 @@ def it_count_multi(i, fr, st, pc, a, t, fn, r):
 
 
 TABLE["std::iter::Iterator::count"] = it_count_multi
+
+
+# ---------------------------------------------------------------------------------- round-5 idioms
+def try_into_array(i, fr, st, pc, a, t, fn, r):
+    """<&[T] as TryInto<[T; N]>>::try_into / TryFrom<&[T]> for [T; N]: Ok(copy) iff the lengths agree"""
+    info = r or fn
+    tys = [x for x in (info.get("args") or []) if isinstance(x, dict)]
+    arr = [x for x in tys if x.get("k") == "array"]
+    src = a[0]
+    if not arr or not (isinstance(src, Ptr) and src.sl is not None):
+        raise Undecided("try_into of %r" % (src,))
+    n = arr[0].get("len")
+    if isinstance(n, dict):
+        n = fr.env.get(n.get("name")) if n.get("k") == "param" else n.get("val", n.get("v"))
+    if not isinstance(n, int):
+        raise Undecided("array length of try_into not known")
+    elems = list(i.slice_elems(st, src))
+    if len(elems) != n:
+        return _ret(i, st, pc, Agg("adt", RESULT, 1, (Opaque("TryFromSliceError", ()),)))
+    vals = [i.read_ptr(st, e) if isinstance(e, Ptr) and e.sl is None else e for e in elems]
+    return _ret(i, st, pc, Agg("adt", RESULT, 0, (Arr(vals),)))
+
+
+def rng_fill(i, fr, st, pc, a, t, fn, r):
+    """Rng::fill / try_fill on an integer slice: one fresh draw per element"""
+    dest = a[1]
+    if isinstance(dest, Ptr) and dest.sl is None:
+        inner = i.read_ptr(st, dest)
+        if isinstance(inner, Ptr):
+            dest = inner
+    if not (isinstance(dest, Ptr) and dest.sl is not None):
+        raise Undecided("fill of %r" % (dest,))
+    src = i.read_ptr(st, a[0]) if isinstance(a[0], Ptr) else a[0]
+    if not (isinstance(src, Opaque) and src.kind == "thread_rng"):
+        raise Undecided("fill from %r" % (src,))
+    new = []
+    for e in i.slice_elems(st, dest):
+        cur = i.read_ptr(st, e) if isinstance(e, Ptr) else e
+        if not isinstance(cur, W):
+            raise Undecided("fill of non-integer elements")
+        k = i.rng_calls
+        i.rng_calls += 1
+        new.append(W(cur.width, bits=[B.atom("rng%d[%d]" % (k, b)) for b in range(cur.width)]))
+    i.write_slice(st, dest, new)
+    if fn["name"] == "try_fill":
+        return _ret(i, st, pc, Agg("adt", RESULT, 0, (UNIT,)))
+    return _ret(i, st, pc, UNIT)
+
+
+def result_is(i, fr, st, pc, a, t, fn, r):
+    v = i.read_ptr(st, a[0]) if isinstance(a[0], Ptr) else a[0]
+    if not isinstance(v, Agg):
+        raise Undecided("is_ok on %r" % (v,))
+    return _ret(i, st, pc, wbool((v.variant == 0) == (fn["name"] == "is_ok")))
+
+
+def it_peekable(i, fr, st, pc, a, t, fn, r):
+    return _ret(i, st, pc, Opaque("peekable", (a[0], None)))
+
+
+def _peek_fill(i, fr, st, pc, itp):
+    """make sure the look-ahead slot is filled: -> list of (state, pc, inner', slot) where slot is ('some', item) / ('none',)"""
+    pk = i.read_ptr(st, itp) if isinstance(itp, Ptr) else itp
+    if not (isinstance(pk, Opaque) and pk.kind == "peekable"):
+        raise Undecided("peek on %r" % (pk,))
+    inner, slot = pk.data
+    if slot is not None:
+        return [(st, pc, inner, slot)], []
+    subs, others = iter_next_multi(i, fr, st, pc, inner)
+    return [(s1, p1, it2, ("none",) if item is None else ("some", item)) for s1, p1, it2, item in subs], others
+
+
+def peekable_next(i, fr, st, pc, a, t, fn, r):
+    outs = []
+    subs, others = _peek_fill(i, fr, st, pc, a[0])
+    outs += others
+    for s1, p1, inner, slot in subs:
+        i.write_ptr(s1, a[0], Opaque("peekable", (inner, None if slot[0] == "some" else slot)))
+        outs.append(Outcome("return", s1, p1, some(slot[1]) if slot[0] == "some" else NONE))
+    return outs
+
+
+def peekable_peek(i, fr, st, pc, a, t, fn, r):
+    outs = []
+    subs, others = _peek_fill(i, fr, st, pc, a[0])
+    outs += others
+    for s1, p1, inner, slot in subs:
+        i.write_ptr(s1, a[0], Opaque("peekable", (inner, slot)))
+        if slot[0] == "none":
+            outs.append(Outcome("return", s1, p1, NONE))
+        else:
+            c = new_cell()
+            s1.mem[c] = slot[1]
+            outs.append(Outcome("return", s1, p1, some(Ptr(c, ()))))
+    return outs
+
+
+def peekable_next_if(i, fr, st, pc, a, t, fn, r):
+    """next_if(f): yields the next item only when f(&item) holds, else leaves it in the look-ahead slot"""
+    outs = []
+    subs, others = _peek_fill(i, fr, st, pc, a[0])
+    outs += others
+    for s1, p1, inner, slot in subs:
+        if slot[0] == "none":
+            i.write_ptr(s1, a[0], Opaque("peekable", (inner, slot)))
+            outs.append(Outcome("return", s1, p1, NONE))
+            continue
+        c = new_cell()
+        s1.mem[c] = slot[1]
+        for o in call_closure(i, fr, s1, p1, a[1], [Ptr(c, ())]):
+            if o.kind != "return":
+                outs.append(o)
+                continue
+            for s2, p2, val in _split_bool(i, o.state, o.pc, o.value):
+                if val:
+                    i.write_ptr(s2, a[0], Opaque("peekable", (inner, None)))
+                    outs.append(Outcome("return", s2, p2, some(slot[1])))
+                else:
+                    i.write_ptr(s2, a[0], Opaque("peekable", (inner, slot)))
+                    outs.append(Outcome("return", s2, p2, NONE))
+    return outs
+
+
+_old_iter_next_multi_pk = iter_next_multi
+
+
+def iter_next_multi(i, fr, st, pc, it):  # noqa: F811
+    if isinstance(it, Opaque) and it.kind == "peekable":
+        inner, slot = it.data
+        if slot is not None:
+            return [(st, pc, Opaque("peekable", (inner, None if slot[0] == "some" else slot)), slot[1] if slot[0] == "some" else None)], []
+        subs, others = _old_iter_next_multi_pk(i, fr, st, pc, inner)
+        return [(s1, p1, Opaque("peekable", (it2, None if item is not None else ("none",))), item) for s1, p1, it2, item in subs], others
+    return _old_iter_next_multi_pk(i, fr, st, pc, it)
+
+
+TABLE.update({
+    "<T as std::convert::TryInto<U>>::try_into": try_into_array,
+    "std::array::<impl std::convert::TryFrom<&'a [T]> for [T; N]>::try_from": try_into_array,
+    "std::array::<impl std::convert::TryFrom<&[T]> for [T; N]>::try_from": try_into_array,
+    "rand::Rng::try_fill": rng_fill,
+    "rand::Rng::fill": rng_fill,
+    "std::result::Result::<T, E>::is_ok": result_is,
+    "std::result::Result::<T, E>::is_err": result_is,
+    "std::iter::Iterator::peekable": it_peekable,
+    "<std::iter::Peekable<I> as std::iter::Iterator>::next": peekable_next,
+    "std::iter::Peekable::<I>::peek": peekable_peek,
+    "std::iter::Peekable::<I>::next_if": peekable_next_if,
+})
 
 
 def _int_dispatch(path):
